@@ -54,7 +54,7 @@ fn dc<T: Dom>(vk: VK, k: usize, kind: Dc) {
     }
 }
 pub fn units(tier: Tier, _seed: u64) -> Vec<Unit> {
-    let ns: Vec<usize> = if tier == Tier::Quick { vec![2, 3, 5] } else { vec![1, 2, 3, 4, 5, 6, 7, 8, 16] };
+    let ns: Vec<usize> = if tier == Tier::Quick { vec![1, 2, 3, 4, 5, 6, 7, 8, 9, 10, 12, 16] } else { vec![1, 2, 3, 4, 5, 6, 7, 8, 9, 10, 11, 12, 13, 16, 20, 32] };
     let mut u = vec![];
     for &n in &ns {
         let k = 2 * n + 4;
@@ -81,7 +81,7 @@ pub fn units(tier: Tier, _seed: u64) -> Vec<Unit> {
 pub fn meta() -> Meta {
     Meta {
         functions: vec!["Sma", "Ema", "Alma", "Cumulative", "LaguerreFilter", "SuperSmoother", "RoofingFilter", "CyberCycle — each ::{new,update,last}, three instances driven on x, y and a*x+b*y"],
-        bounds: "N in {2,3,5} (quick) / {1..8,16} (thorough); k = 2N+4 (N+M+5 for Roofing); a, b, c and all inputs are solver variables (any reals, including 0 and negatives); LaguerreFilter gamma in {0,.2,.5,.8,.95} and symbolic gamma in [0,1) for k<=5; DC obligations at t = 8N (+warm-up)",
+        bounds: "N in {1..10,12,16} (quick) / {1..13,16,20,32} (thorough); k = 2N+4 (N+M+5 for Roofing); a, b, c and all inputs are solver variables (any reals, including 0 and negatives); LaguerreFilter gamma in {0,.2,.5,.8,.95} and symbolic gamma in [0,1) for k<=5; DC obligations at t = 8N (+warm-up)",
         outside: vec!["f64 rounding ('up to rounding in f64')", "N > 16, longer streams", "DC convergence slower than the stated horizon"],
         assumptions: vec!["filter coefficients (exp/cos/sin of concrete arguments) are evaluated with the platform libm and enter as exact rationals"],
     }
